@@ -33,12 +33,13 @@ PENDING_CANDIDATES = {}   # all candidates adjudicated: see known_findings.json
 def classify(pattern, detail):
     """Stable key of a failing drop order: used to match known findings / pending candidates."""
     d = detail
-    if pattern == "pubsub" and d.startswith("survivor:sample:canary:") and "subscriber" in d.split("after=")[-1].split(","):
+    # the two known findings are keyed ONLY when the driver has verified their preconditions on the drop order
+    # (markers below); the same symptom under any other order gets a generic key and is a VIOLATION
+    if pattern == "pubsub" and d.startswith("survivor:sample:canary:") and ":its-subscriber-dropped-and-publisher-loaned-afterwards" in d:
         return "pubsub:sample-outlives-subscriber-chunk-reused"
     if pattern == "reqres2" and re.match(r"^survivor:pending_[ab]:received-\[\]-sent-", d) and "while-response_b-is-held" not in d:
         return "reqres:delivered-response-lost-when-sibling-polls-expired-connection"
-    m = re.match(r"^leftover:node_dirx\d+:", d)
-    if m:
+    if re.match(r"^leftover:node_dirx\d+:last-holder-of-each-left-node-is-a-port-side-object:", d):
         return "node:details-dir-left-when-port-outlives-node"
     # anything else: a key that names what failed, without the history
     parts = [p for p in d.split(":") if not p.startswith("after=") and not p.startswith("order=")]
